@@ -16,7 +16,7 @@ _TOKEN_RE = re.compile(r"""
   | (?P<bcom>/\*.*?\*/)
   | (?P<str>"[^"\n]*")
   | (?P<macro>`[A-Za-z_][A-Za-z0-9_]*)
-  | (?P<sized>[0-9]+\s*'[sS]?[bBdDhHoO][0-9a-fA-FxXzZ_?]+)
+  | (?P<sized>[0-9]+\s*'[sS]?[bBdDhHoO][0-9a-fA-FxXzZ_?]*)
   | (?P<tick0>'[01xXzZ](?![0-9a-zA-Z_]))
   | (?P<tickbrace>'\{)
   | (?P<tickparen>'\()
